@@ -1,4 +1,3 @@
-import Std.Data.HashMap
 /-!
 # Abstract heap graphs and the collection validator (C03)
 
@@ -12,7 +11,7 @@ is the part of the heap that is reachable from the strong roots: the ordered lis
 before it up to a renaming of addresses:
 
 1. a *candidate* renaming `φ` is built by walking both graphs simultaneously from the paired roots
-   (`buildCandidate`; hash maps, fuel — nothing about it is trusted);
+   (`buildCandidate`; nothing about it is trusted);
 2. the candidate is *verified* (`verifyMap`): keys distinct and values distinct (so `φ` is a
    partial injection), roots pairwise related, and for every pair `(a, b)` of `φ` both objects exist,
    agree on shape, size, payload hash and number of reference fields, and their reference fields
@@ -30,13 +29,13 @@ structure Obj where
   size : Nat
   hash : Nat
   refs : List Nat
-  deriving Repr, BEq, Inhabited
+  deriving Repr, BEq, Inhabited, DecidableEq
 
 /-- one strong root slot: a reference to `base` (0 = null), or — interior slot — to `base + off` -/
 structure Root where
   base : Nat
   off : Nat
-  deriving Repr, BEq, Inhabited
+  deriving Repr, BEq, Inhabited, DecidableEq
 
 structure Heap where
   roots : List Root
@@ -87,40 +86,34 @@ def verifyMap (pre post : Heap) (φ : List (Nat × Nat)) : Bool :=
     && all2 (rootOk φ) pre.roots post.roots
     && φ.all (pairOk pre post φ)
 
-/-! ## the untrusted part: a candidate renaming by simultaneous traversal -/
+/-! ## the untrusted part: a candidate renaming by simultaneous traversal
 
-structure Build where
-  fwd : Std.HashMap Nat Nat := {}
-  pairs : Array (Nat × Nat) := #[]
-  work : Array (Nat × Nat) := #[]
+Plain lists and structural recursion on fuel, so that the kernel can evaluate the validator on the
+small examples in `Props/C03.lean`; dumps hold the reachable graph of small test programs (tens to a
+few thousand objects), for which the quadratic cost does not matter. -/
 
-def Build.visit (b : Build) (a a' : Nat) : Build :=
-  if a == 0 || a' == 0 then b
-  else if b.fwd.contains a then b
-  else { fwd := b.fwd.insert a a', pairs := b.pairs.push (a, a'), work := b.work.push (a, a') }
+/-- pair up two reference lists (stops at the shorter one; a length mismatch is caught by `verifyMap`) -/
+def zipRefs : List Nat → List Nat → List (Nat × Nat)
+  | c :: cs, c' :: cs' => (c, c') :: zipRefs cs cs'
+  | _, _ => []
 
-def visitAll (b : Build) : List Nat → List Nat → Build
-  | c :: cs, c' :: cs' => visitAll (b.visit c c') cs cs'
-  | _, _ => b
+/-- walk both graphs in lock step from a stack of paired references; every pop costs one unit of fuel -/
+def buildLoop (pre post : Heap) : Nat → List (Nat × Nat) → List (Nat × Nat) → List (Nat × Nat)
+  | 0, _, φ => φ
+  | _ + 1, [], φ => φ
+  | fuel + 1, (a, a') :: rest, φ =>
+    if a == 0 || a' == 0 then buildLoop pre post fuel rest φ
+    else if (φ.lookup a).isSome then buildLoop pre post fuel rest φ
+    else
+      match pre.find a, post.find a' with
+      | some oa, some ob => buildLoop pre post fuel (zipRefs oa.refs ob.refs ++ rest) ((a, a') :: φ)
+      | _, _ => buildLoop pre post fuel rest ((a, a') :: φ)
 
-/-- walk both graphs in lock step; `fuel` bounds the number of objects expanded -/
-def buildLoop (preIdx postIdx : Std.HashMap Nat Obj) : Nat → Nat → Build → Build
-  | 0, _, b => b
-  | fuel + 1, i, b =>
-    if h : i < b.work.size then
-      let (a, a') := b.work[i]
-      match preIdx[a]?, postIdx[a']? with
-      | some oa, some ob => buildLoop preIdx postIdx fuel (i + 1) (visitAll b oa.refs ob.refs)
-      | _, _ => buildLoop preIdx postIdx fuel (i + 1) b
-    else b
-
-def index (h : Heap) : Std.HashMap Nat Obj :=
-  h.objs.foldl (fun m o => if m.contains o.id then m else m.insert o.id o) {}
+def edgeCount (h : Heap) : Nat := h.objs.foldl (fun n o => n + o.refs.length) h.roots.length
 
 def buildCandidate (pre post : Heap) : List (Nat × Nat) :=
-  let b0 := visitAll {} (pre.roots.map (·.base)) (post.roots.map (·.base))
-  let b := buildLoop (index pre) (index post) (pre.objs.length + post.objs.length + 1) 0 b0
-  b.pairs.toList
+  buildLoop pre post (edgeCount pre + edgeCount post + 1)
+    (zipRefs (pre.roots.map (·.base)) (post.roots.map (·.base))) []
 
 /-! ## the validator -/
 
